@@ -11,6 +11,9 @@
 #include <stdint.h>
 #include <stddef.h>
 #include <string.h>
+#ifdef CARQUET_VERIF
+#include "core/verif_hook.h"
+#endif
 
 /* ============================================================================
  * Function Pointer Types
@@ -461,6 +464,9 @@ void carquet_simd_dispatch_init(void) {
     if (g_dispatch_initialized) {
         return;
     }
+#ifdef CARQUET_VERIF
+    CARQUET_VERIF_EVENT(CARQUET_VERIF_INIT_BEGIN, &g_dispatch, 2, 0);
+#endif
 
     const carquet_cpu_info_t* cpu = carquet_get_cpu_info();
     (void)cpu;  /* May be unused on some platforms */
@@ -587,6 +593,9 @@ void carquet_simd_dispatch_init(void) {
 
 #endif /* AArch64 */
 
+#ifdef CARQUET_VERIF
+    CARQUET_VERIF_EVENT(CARQUET_VERIF_INIT_PUBLISH, &g_dispatch, 2, 0);
+#endif
     g_dispatch_initialized = 1;
 }
 
